@@ -276,7 +276,7 @@ class ProgGen:
             if bases and t.bool(0.65, "derive"):
                 c.parent = t.pick(bases, "base").qname
         self.p.classes.append(c)        # a class may refer to itself in its own signatures
-        if self.f.get("enums", True) and t.bool(0.15, "class-enum"):
+        if self.f.get("enums", True) and (len(ns) < 2 or self.f.get("class_enum_nested")) and t.bool(0.15, "class-enum"):
             e = PEnum(t.pick(["Kind", "Mode"], "ename"), ns, t.shuffle(["Red", "Green", "Blue", "Dog"], "evals")[:3], owner=c)
             c.enums.append(e)
             self.p.enums.append(e)
@@ -381,17 +381,26 @@ class ProgGen:
         self.p.functions.append(([], PFunc("func", self.fresh(["makeRoot", "giveBase"]),
                                            PType("class", root.qname, "sptr"), [])))
 
-    def force_enum(self):
+    def force_enum_nested(self):
+        self.force_enum(nested=True)
+
+    def force_enum(self, nested=False):
         t = self.t
         ns = [t.pick(NSN, "ns")]
+        if nested:
+            ns = ns + [t.pick(["inner", "detail"], "ns2")]      # enum and class two namespaces deep
         gname = self.fresh(["Color", "Status", "Level"])
         ge = PEnum(gname, ns, [gname + x for x in ("Low", "Mid", "High")])
         self.p.enums.append(ge)
         c = PClass(self.fresh(["Pet", "Lamp", "Dial"]), ns)
         self.p.classes.append(c)
-        ce = PEnum("Kind", ns, ["Dog", "Cat", "Bird"], owner=c)
-        c.enums.append(ce)
-        self.p.enums.append(ce)
+        # A class-scoped enum of a class two namespaces deep is written by MatlabWrapper to the package
+        # "+<ns1><ns2>/+Class" (names glued together) instead of "+ns1/+ns2/+Class": MATLAB cannot resolve
+        # ns1.ns2.Class.Kind (known finding of C11, exercised by the `thisargs` program only).
+        ce = PEnum("Kind", ns, ["Dog", "Cat", "Bird"], owner=c) if (len(ns) < 2 or self.f.get("class_enum_nested")) else ge
+        if ce is not ge:
+            c.enums.append(ce)
+            self.p.enums.append(ce)
         c.ctors.append(PFunc("ctor", c.name, None, [PArg(PType("enum", ce.qname), "kind")]))
         c.ctors.append(PFunc("ctor", c.name, None, []))
         c.methods.append(PFunc("method", "flip", PType("enum", ce.qname), [PArg(PType("enum", ce.qname), "k")]))
@@ -410,6 +419,8 @@ class ProgGen:
             item = t.pick(plain, "tpl-item")
         pool = [PType("prim", "double"), PType("prim", "int"), PType("eig", "Point2"), PType("eig", "Vector")]
         insts = t.shuffle(pool, "tpl-insts")[:1 + t.choose(3, "tpl-ninst")]
+        if self.f.get("this_args") and not any(i.name == "double" for i in insts):
+            insts.insert(0, PType("prim", "double"))     # the known-finding program always has a lower-case instantiation
         if item is not None:
             insts.append(PType("class", item.qname, "val"))
         tpl = PTemplate(self.fresh(["Box", "Slot", "Cell", "Wrap"]), ns, insts)
